@@ -295,4 +295,17 @@ def check(run):
     ok = path(aset.get(("this", "m_block_parameters"))) == ("p:%s" % sbp["params"][0]["n"],) and \
         path(unwrap_all_casts(aset.get(("this", "m_block_preamble", "block_parameters_index")))) == ("p:%s" % sbp["params"][1]["n"],)
     run.ob("R04.5", "set_block_parameters:both", ok, sbp, sbp["line"], "parameters and their index are set together")
+    # ... on every path on which the block is empty: no other early exit may skip the copy (the index does not
+    # identify the contents: get_active_block_parameters_ref() lets the application edit a set in place)
+    envs = Env(sbp["body"])
+    for st, g, loops in ir.guarded_statements(sbp["body"], envs):
+        if st.get("k") in ("IfCond", "LoopHead", "SwitchHead"):
+            continue
+        for lp, rhs, node in consumption.assignment_targets([st]):
+            if lp == ("this", "m_block_parameters"):
+                extra = [a for a in conjuncts(g) if "get_item_count" not in repr(a)]
+                run.ob("R04.5", "set_block_parameters:always-copies", not extra, sbp, node.get("l", 0),
+                       "an empty block always takes over the parameter set handed in" if not extra else
+                       "the copy of the block parameters is skipped when %s: the block keeps building under stale hints while the "
+                       "preamble states the new ones" % " && ".join(show_f(a) for a in extra))
     run.floor("R04.5", 40, "hint bits, hint words, re-arm")
